@@ -90,6 +90,27 @@ Theorem C08_ownership_facts : forall f, In f own_facts ->
 Proof. exact own_discipline. Qed.
 Print Assumptions C08_ownership_facts.
 
+(* the functions that hold a pooled object are not a hand-written list alone: every function of zapcore
+   that calls getSliceEncoder / putSliceEncoder (regenerated census) is one of the functions whose event
+   order is checked above (its Put follows its last use), takes and returns exactly one collector, and
+   stores no reference to the collector's elems in anything that outlives the Put (no occurrence of
+   x.elems other than x.elems[i], range x.elems, len / cap) - a temporary collector for NESTED arrays that
+   is taken from the pool and put back while the outer collector still refers to its storage is rejected *)
+Theorem C08_pool_holders : forall h, In h pool_holders ->
+  (exists f, In f own_facts /\ of_fn f = (ph_fn h ++ "/" ++ ph_var h)%string /\ disc_ok (of_events f) = true) /\
+  ph_gets h = 1 /\ ph_puts h = 1 /\ ph_escapes h = [].
+Proof. exact pool_holders_known. Qed.
+Print Assumptions C08_pool_holders.
+
+Theorem C08_pool_holder_escape_rejected : forall owned h e r, ph_escapes h = e :: r -> holder_ok owned h = false.
+Proof. exact holder_escape_rejected. Qed.
+Print Assumptions C08_pool_holder_escape_rejected.
+
+Theorem C08_pool_holder_unknown_rejected : forall owned h,
+  ~ In (ph_fn h ++ "/" ++ ph_var h)%string owned -> holder_ok owned h = false.
+Proof. exact holder_unknown_rejected. Qed.
+Print Assumptions C08_pool_holder_unknown_rejected.
+
 (* ---- state shared by a whole logger family (not pooled: reached through a copied pointer) ---- *)
 
 (* clone() copies the pointer to the EncoderConfig, so a logger's long-lived encoder, the per-call clone
